@@ -3,8 +3,9 @@ import TrippyVerif.Model.StrategyIO
 /-
 Line protocol for the configuration-validation model (component `cfgb` of the driver).
 
-  cfgb build <proto i|u|t> <strat c|p|d> <portdir n|s:P|d:P|b:S:D> <first> <max> <initial> [<v6 0|1> <priv 0|1>]
-      -> ok | err                                   (`Builder::build`)
+  cfgb build <proto i|u|t> <strat c|p|d> <portdir n|s:P|d:P|b:S:D> <first> <max> <initial>
+             [<v6 0|1> <priv 0|1> [<source_addr family -|4|6>]]
+      -> ok | err                                   (`Builder::build`; `v6` = family of the target)
   cfgb cli <udp 0|1><tcp 0|1><icmp 0|1> <protocol i|u|t> <strat c|p|d> <unpriv 0|1> <srcport|-> <dstport|->
            <first> <max> <inflight> <packetsize> <family 4|o> <initial> <pid>
       -> err | ok <proto> <strat> <portdir> <first> <max> <initial> <packetsize> <inflight> <priv 0|1>
@@ -27,8 +28,9 @@ def showStrat : MStrat → String | .classic => "c" | .paris => "p" | .dublin =>
 def showPortDir : PortDir → String
   | .none => "n" | .fixedSrc p => s!"s:{p}" | .fixedDest p => s!"d:{p}" | .fixedBoth a b => s!"b:{a}:{b}"
 
-def mkParams (proto : Proto) (strat : MStrat) (pd : PortDir) (first max initial : Nat) (v6 priv : Bool) : Params :=
-  { v6 := v6, target := 7, srcV6 := none, privileged := priv, proto := proto,
+def mkParams (proto : Proto) (strat : MStrat) (pd : PortDir) (first max initial : Nat) (v6 priv : Bool)
+    (src : Option Bool) : Params :=
+  { v6 := v6, target := 7, srcV6 := src, privileged := priv, proto := proto,
     packetSize := Consts.defaults_DEFAULT_STRATEGY_PACKET_SIZE, traceId := 0, maxRounds := some 3,
     firstTtl := first, maxTtl := max, grace := Consts.defaults_DEFAULT_STRATEGY_GRACE_DURATION,
     maxInflight := Consts.defaults_DEFAULT_STRATEGY_MAX_INFLIGHT, initialSeq := initial, strat := strat,
@@ -41,14 +43,17 @@ def answerBuild (b : Params) : String :=
   | .err _ => "err"
   | .panic => "panic"
 
-def handleBuild (proto strat pd first max initial : String) (v6 priv : Bool) : Option String := do
+def parseSrc (s : String) : Option (Option Bool) :=
+  match s with | "-" => some none | "4" => some (some false) | "6" => some (some true) | _ => none
+
+def handleBuild (proto strat pd first max initial : String) (v6 priv : Bool) (src : Option Bool) : Option String := do
   let proto ← parseProto proto
   let strat ← parseStrat strat
   let pd ← parsePortDir pd
   let first ← first.toNat?
   let max ← max.toNat?
   let initial ← initial.toNat?
-  pure (answerBuild (mkParams proto strat pd first max initial v6 priv))
+  pure (answerBuild (mkParams proto strat pd first max initial v6 priv src))
 
 def parseFlags (s : String) : Option (Bool × Bool × Bool) :=
   match s.toList with
@@ -90,11 +95,16 @@ def handleCli (args : List String) : Option String :=
 /-- driver entry: `args` is the request line split on blanks with the leading `cfgb` removed -/
 def handle (args : List String) : Option String :=
   match args with
-  | ["build", proto, strat, pd, first, max, initial] => handleBuild proto strat pd first max initial false true
+  | ["build", proto, strat, pd, first, max, initial] => handleBuild proto strat pd first max initial false true none
   | ["build", proto, strat, pd, first, max, initial, v6, priv] => do
     let v6 ← parseBool v6
     let priv ← parseBool priv
-    handleBuild proto strat pd first max initial v6 priv
+    handleBuild proto strat pd first max initial v6 priv none
+  | ["build", proto, strat, pd, first, max, initial, v6, priv, src] => do
+    let v6 ← parseBool v6
+    let priv ← parseBool priv
+    let src ← parseSrc src
+    handleBuild proto strat pd first max initial v6 priv src
   | "cli" :: rest => handleCli rest
   | _ => none
 
